@@ -209,12 +209,21 @@ func (v *Verifier) solveAll(x *Exec, obls []*Obligation, timeoutS int, stats *So
 		go func(o *Obligation) {
 			defer wg.Done()
 			defer func() { <-sem }()
-			r := solve(o.Script, timeoutS, true)
+			var r solveResult
+			if o.ExpectSat {
+				// vacuity probes only need "not refuted": one solver, short budget
+				r = runSolver(context.Background(), solvers[0], o.Script, 2)
+			} else {
+				r = solve(o.Script, timeoutS, true)
+			}
 			o.Solver, o.Time, o.Output = r.solver, r.time, r.output
 			if o.ExpectSat {
 				switch r.verdict {
 				case "unsat":
 					o.Status = "failed"
+					if o.Kind == "reach" {
+						o.Status = "infeasible"
+					}
 				default:
 					o.Status = "discharged"
 				}
@@ -244,7 +253,46 @@ func (v *Verifier) solveAll(x *Exec, obls []*Obligation, timeoutS int, stats *So
 	}
 }
 
+// Solve discharges the obligations of one function and settles the vacuity probes.
+func (v *Verifier) Solve(res *FuncResult, timeoutS int, stats *SolveStats) {
+	v.solveAll(res.x, res.Obligations, timeoutS, stats)
+	settleReach(res)
+}
+
 // finish numbers the labels so that every obligation has a unique, stable name.
+// settleReach folds the per-path reachability probes into one vacuity
+// obligation per function: at least one return path must be feasible.
+func settleReach(res *FuncResult) {
+	var kept []*Obligation
+	feasible, total := 0, 0
+	var probe *Obligation
+	for _, o := range res.Obligations {
+		if o.Kind != "reach" {
+			kept = append(kept, o)
+			continue
+		}
+		total++
+		if o.Status != "infeasible" {
+			feasible++
+		}
+		if probe == nil || (o.Status != "infeasible" && probe.Status == "infeasible") {
+			probe = o
+		}
+	}
+	res.FeasibleReturns, res.ReturnPaths = feasible, total
+	if probe != nil {
+		probe.Kind = "vacuity"
+		if feasible == 0 {
+			probe.Status = "failed"
+			probe.Output = "every return path has contradictory hypotheses: the contract or an invariant is vacuous"
+		} else {
+			probe.Status = "discharged"
+		}
+		kept = append(kept, probe)
+	}
+	res.Obligations = kept
+}
+
 func (v *Verifier) finish(x *Exec, res *FuncResult) {
 	count := map[string]int{}
 	for _, o := range res.Obligations {
